@@ -124,3 +124,17 @@ Theorem C16_go_union_setmin_blend : forall (minf : R -> R -> R) (l : list (Obj2 
   @sdf_UnionSDF2_EvaluateSlow ROps (map pf2 l) minf p.
 Proof. exact go_union_setmin_blend. Qed.
 Print Assumptions C16_go_union_setmin_blend.
+
+(* ---- inventory of mutable state (DESIGN.md 2.3).  The models above are functions of their arguments; they are
+   faithful only as long as the code keeps no state between calls beyond what they mention.  The package-level
+   variables and struct fields in the scope of C16 (and which of them are written outside construction, from which
+   entry points) are regenerated from the current source on every run (harness/stategen -> Generated/StateInv.v)
+   and contain no state beyond the expected, reviewed inventory of Sys/StateInvSpec.v, where every piece of state
+   that legitimately exists names the model component that accounts for it.  Breaks when a written package-level
+   variable, a struct field, or a write of a field outside its constructor is added in scope (coqc then prints the
+   differences); tolerates moved declarations, reordered fields, renamed locals, new helpers / constants / tables
+   nothing writes. *)
+From Sdfx Require Sys.StateInvSpec Sys.StateInvC16.
+Theorem C16_state_inventory : Sdfx.Sys.StateInvSpec.state_ok_C16 = true.
+Proof. exact Sdfx.Sys.StateInvC16.C16_state_inventory. Qed.
+Print Assumptions C16_state_inventory.
